@@ -67,6 +67,9 @@ pub struct WsSc {
     /// (close frame and/or FIN already queued behind the data)
     #[serde(default)]
     pub late_read: bool,
+    /// status code of the server's close frame (0 = close frame without a status)
+    #[serde(default)]
+    pub close_code: u16,
 }
 
 const GUARD: Duration = Duration::from_secs(3);
@@ -74,7 +77,7 @@ const GUARD: Duration = Duration::from_secs(3);
 #[derive(Debug, Clone, Serialize)]
 enum WEv {
     ServerSent { kind: &'static str, len: usize },
-    Read { res: AppRes },
+    Read { res: AppRes, slow: bool },
     Wrote { res: AppRes },
     ServerGot { msg: String },
     ServerGotNothing,
@@ -105,6 +108,21 @@ async fn server_next(server: &mut Srv) -> Option<String> {
         }
     }
 }
+
+fn close_frame(code: u16) -> Option<tokio_tungstenite::tungstenite::protocol::CloseFrame<'static>> {
+    if code == 0 {
+        None
+    } else {
+        Some(tokio_tungstenite::tungstenite::protocol::CloseFrame {
+            code: tokio_tungstenite::tungstenite::protocol::frame::coding::CloseCode::from(code),
+            reason: "relay going away".into(),
+        })
+    }
+}
+
+/// a read that only completes this long after everything it needs was sent did not make
+/// progress on its own: something else (our guard timer) had to wake it
+const SLOW_MS: u128 = 2_000;
 
 fn to_res(r: insim::Result<insim::Packet>) -> AppRes {
     match r {
@@ -152,12 +170,14 @@ fn run_ws(sc: &WsSc) -> WsRun {
                     while frames_read < complete {
                         let f = &split_frames(sc.mode, &stream)[frames_read];
                         let is_ka = matches!(expect_for(sc.mode, false, &stream[f.start..f.start + f.len]), Expect::Pkt { keepalive: true, .. });
+                        let t_read = std::time::Instant::now();
                         let res = match tokio::time::timeout(GUARD, framed.read()).await {
                             Err(_) => AppRes::Other("no result within the 3 s guard although the server's messages were already sent".into()),
                             Ok(r) => to_res(r),
                         };
+                        let slow = t_read.elapsed().as_millis() >= SLOW_MS;
                         let stop = !matches!(res, AppRes::Pkt(_) | AppRes::Decode(_) | AppRes::IncompatibleVersion(_));
-                        events.push(WEv::Read { res });
+                        events.push(WEv::Read { res, slow });
                         frames_read += 1;
                         if stop {
                             $stopped = true;
@@ -260,7 +280,7 @@ fn run_ws(sc: &WsSc) -> WsRun {
             // the server ends the session first: close frame (optional) then FIN, its read side
             // stays open; only then does the client read what the last Send step delivered
             if sc.end == WsEnd::Close {
-                let _ = tokio::time::timeout(GUARD, server.close(None)).await;
+                let _ = tokio::time::timeout(GUARD, server.close(close_frame(sc.close_code))).await;
             }
             {
                 use tokio::io::AsyncWriteExt;
@@ -283,7 +303,7 @@ fn run_ws(sc: &WsSc) -> WsRun {
         match sc.end {
             WsEnd::Close => {
                 let srv = async {
-                    let _ = tokio::time::timeout(GUARD, server.close(None)).await;
+                    let _ = tokio::time::timeout(GUARD, server.close(close_frame(sc.close_code))).await;
                     // let the client's close reply arrive, then drop the TCP stream
                     let _ = tokio::time::timeout(Duration::from_millis(200), server.next()).await;
                     drop(server);
@@ -410,11 +430,24 @@ impl Prop for C20 {
             cuts.push(stream.len());
         }
         let with_other = rng.chance(2, 3);
+        let storms = rng.chance(1, 3);
+        let mut storm_at: Vec<usize> = Vec::new();
         let mut msgs: Vec<WsMsg> = Vec::new();
         let mut p = 0;
         for c in cuts {
             if c <= p {
                 continue;
+            }
+            if storms && rng.chance(1, 40) {
+                // a long run of control / text messages in front of the next data message
+                for _ in 0..rng.usize(33, 90) {
+                    msgs.push(match rng.below(3) {
+                        0 => WsMsg::Text("relay says hi".into()),
+                        1 => WsMsg::Ping(vec![1, 2]),
+                        _ => WsMsg::Pong(vec![3]),
+                    });
+                }
+                storm_at.push(msgs.len());
             }
             if with_other && rng.chance(1, 6) {
                 msgs.push(match rng.below(4) {
@@ -453,7 +486,13 @@ impl Prop for C20 {
             let k = rng.small(4) as usize;
             let mut batch = Vec::new();
             let mut bytes = 0usize;
-            for _ in 0..k {
+            for j in 0..(k + 100) {
+                // a run of non-binary messages always travels together with the data message
+                // that follows it
+                let in_storm = matches!(batch.last(), Some(WsMsg::Text(_) | WsMsg::Ping(_) | WsMsg::Pong(_)));
+                if j >= k && !in_storm {
+                    break;
+                }
                 if let Some(m) = it.next() {
                     if let WsMsg::Binary(b) = &m {
                         bytes += b.len();
@@ -511,7 +550,9 @@ impl Prop for C20 {
         } else {
             steps.push(WsStep::Write(sentinel));
         }
-        WsSc { mode, steps, end, late_read }
+        let close_code = if rng.chance(1, 2) { 0 } else { *rng.pick(&[1000u16, 1001, 1012, 1008, 1011, 4000]) };
+        let _ = &storm_at;
+        WsSc { mode, steps, end, late_read, close_code }
     }
 
     fn execute(&self, sc: &WsSc) -> RunReport {
@@ -531,6 +572,7 @@ impl Prop for C20 {
         let mut frames_read = 0usize;
         let mut binary_msgs = 0usize;
         let mut stopped = false;
+        let mut slow_reads: Vec<usize> = Vec::new();
         let last_send = sc.steps.iter().rposition(|s| matches!(s, WsStep::Send(_)));
         macro_rules! check_completed {
             () => {{
@@ -540,7 +582,7 @@ impl Prop for C20 {
                         let f = &frames[frames_read];
                         let e = expect_for(sc.mode, false, &stream[f.start..f.start + f.len]);
                         let want = render(&e);
-                        let Some(WEv::Read { res }) = evs.get(i) else {
+                        let Some(WEv::Read { res, slow }) = evs.get(i) else {
                             stopped = true;
                             break;
                         };
@@ -563,6 +605,9 @@ impl Prop for C20 {
                             ));
                             stopped = true;
                             break;
+                        }
+                        if *slow {
+                            slow_reads.push(frames_read);
                         }
                         if matches!(e, Expect::Pkt { keepalive: true, .. }) {
                             rep.probe("keepalive_over_ws");
@@ -592,7 +637,16 @@ impl Prop for C20 {
         'steps: for (si, st) in sc.steps.iter().enumerate() {
             match st {
                 WsStep::Send(msgs) => {
+                    let mut run = 0usize;
                     for m in msgs {
+                        if matches!(m, WsMsg::Binary(_)) {
+                            run = 0;
+                        } else {
+                            run += 1;
+                            if run == 33 {
+                                rep.probe("control_message_storm");
+                            }
+                        }
                         match evs.get(i) {
                             Some(WEv::ServerSent { .. }) => i += 1,
                             _ => {
@@ -746,6 +800,9 @@ impl Prop for C20 {
                 match sc.end {
                     WsEnd::Close => {
                         rep.probe("clean_close");
+                        if sc.close_code != 0 && sc.close_code != 1000 {
+                            rep.probe("close_with_other_status");
+                        }
                         if *res != AppRes::Disconnected {
                             rep.violations.push(v("ws.close_not_disconnected", format!("{} after a clean close handshake read returned {:?} instead of Disconnected", tag, res)));
                         }
@@ -760,6 +817,29 @@ impl Prop for C20 {
                     },
                 }
                 h.write(res.class().as_bytes());
+            }
+        }
+        if !slow_reads.is_empty() && rep.violations.is_empty() {
+            // a stalled read that only the guard timer woke up: confirm by running the same
+            // scenario again (a scheduling hiccup does not repeat, a lost wake-up does)
+            let again = run_ws(sc);
+            let mut n = 0usize;
+            let mut slow2 = Vec::new();
+            for e in &again.events {
+                if let WEv::Read { slow, .. } = e {
+                    n += 1;
+                    if *slow {
+                        slow2.push(n);
+                    }
+                }
+            }
+            if let Some(k) = slow_reads.iter().find(|k| slow2.contains(k)) {
+                rep.violations.push(v(
+                    "ws.read_stalled",
+                    format!("{} read #{} returned its packet only after >= 2 s although every message it needed had been sent before it started, twice in a row: the read did not arrange to be woken and sat until an unrelated timer fired", tag, k),
+                ));
+            } else {
+                rep.probe("slow_read_not_reproduced");
             }
         }
         rep.trace_hash = h.finish();
@@ -825,6 +905,7 @@ impl Prop for C20 {
                 steps: vec![WsStep::Send(vec![WsMsg::Binary(mode.pong().to_vec())])],
                 end: WsEnd::Close,
                 late_read: false,
+                close_code: 0,
             })
             .collect()
     }
@@ -864,6 +945,8 @@ impl Prop for C20 {
             "abrupt_drop",
             "ended_with_partial_frame",
             "write_burst_against_slow_reader",
+            "close_with_other_status",
+            "control_message_storm",
             "end_of_stream_queued_behind_unread_data",
         ]
     }
